@@ -300,6 +300,10 @@ func vC11GenWorld(r *vRand, c *vC11Cfg, failMode int) *vC11World {
 			w.Senders[s] = r.Range(0, 2)
 		}
 	}
+	if r.Chance(1, 6) {
+		// the destination also holds a report of a chain the home chain does not configure (13): not observed
+		w.Reports[13] = []vC11Rep{{root, 1, 2}}
+	}
 	return w
 }
 
@@ -825,6 +829,14 @@ func TestVerif_C11_exec(t *testing.T) {
 		}
 		w := vC11GenWorld(r, c, failMode)
 		phase := r.Intn(3)
+		// outside the stable-home-configuration hypothesis: the previous outcome still names a chain (13) the home
+		// chain does not configure; judged only for model/implementation agreement, not as a C11 violation
+		pendingUnknown := r.Chance(1, 12)
+		if pendingUnknown {
+			w.Pending[13] = []vC11Rep{{200, 1, 2}}
+			w.NMsgs[13] = 2
+			w.Senders[13] = 1
+		}
 		prev := exectypes.Outcome{State: []exectypes.PluginState{exectypes.Filter, exectypes.GetCommitReports, exectypes.GetMessages}[phase]}
 		if phase == 0 && r.Bool() {
 			prev.State = exectypes.Unknown
@@ -913,6 +925,9 @@ func TestVerif_C11_exec(t *testing.T) {
 			}
 			if len(w.FailList) > 0 {
 				cls += "/failing-calls"
+			}
+			if pendingUnknown {
+				cls = "pending-unknown-chain/" + cls
 			}
 			sink.Emit("C11_exec", cls, partial && (nfields > 0 || status != "Ok"), "("+in+", "+cPair(out, cList(verdicts))+")",
 				map[string]any{"oracles": c.Oracles, "readers": c.Readers, "dest": c.Dest, "observer": o,
